@@ -1,6 +1,7 @@
 package main
 
 import (
+	"sort"
 	"go/token"
 	"go/ast"
 	"os"
@@ -507,11 +508,11 @@ func (e *Exec) havocMod(st *State, mod map[string]Sort) {
 			}
 		}
 	}
-	for name, s := range mod {
+	for _, name := range sortedSortKeys(mod) { // deterministic numbering of the fresh heap versions
 		if name == "*" || name == "alloc" {
 			continue
 		}
-		e.havocHeap(st, name, s)
+		e.havocHeap(st, name, mod[name])
 	}
 	// allocation grows: time moves on by an unknown amount
 	na := Const(freshName("now"), SInt)
@@ -588,4 +589,13 @@ func conjuncts(ex ast.Expr) []ast.Expr {
 		}
 	}
 	return []ast.Expr{ex}
+}
+
+func sortedSortKeys(m map[string]Sort) []string {
+	ks := make([]string, 0, len(m))
+	for k := range m {
+		ks = append(ks, k)
+	}
+	sort.Strings(ks)
+	return ks
 }
